@@ -1,5 +1,6 @@
 import GorumsV.Props.C05
 import GorumsV.Generated.Exprs
+import GorumsV.Tie.TreeParams
 /-!
   Tie for C05: routers are deleted after a delivery exactly when they are not streaming (the
   guard in `routeResponse` and `cancelPendingMsgs`, regenerated from channel.go); message ids
@@ -20,11 +21,45 @@ theorem delGuard_good (streaming isErr : Bool) :
   cases streaming <;> cases isErr <;>
     simp [Generated.ch_routeResponse_delGuard, Generated.ch_cancelPendingMsgs_delGuard, ev, envR, envOf, vnot, veq]
 
+
+/-! ### the composite system `Net` on the tree's parameters (end-to-end provenance) -/
+
+/-- the server answers under the request's id (server template, `WrapMessage`, receiver: read from the tree) -/
+theorem net_echo_good : Tie.Tree.echoFacts = true := by decide
+/-- one id per call from the manager-wide counter, carried by every message of the call (read from the tree) -/
+theorem net_ids_good : Tie.Tree.idFacts = true := by decide
+/-- every answer names the channel's own node (read from the tree) -/
+theorem net_nid_good : Tie.Tree.nidFacts = true := by decide
+
+theorem net_params_good (h : Net.NodeId → Net.Payload → Chan.Resp) : (Tie.Tree.netParams h).Good := by
+  intro i; simp [Tie.Tree.netParams, net_echo_good]
+
+/-- **provenance on the tree's parameters**: a reply that node n's channel delivers to a call is what n's handler
+    computed from the payload that call addressed to n -/
+theorem tree_provenance (h : Net.NodeId → Net.Payload → Chan.Resp) (s : Net.State) (hr : Net.Reachable (Tie.Tree.netParams h) s)
+    (n : Net.NodeId) (d : Chan.Delivery) (hd : d ∈ (s.nodes n).chan.deliveries) (v : Nat) (hv : d.resp = .reply v) :
+    ∃ p, (⟨d.id, d.call, n, p⟩ : Net.Issue) ∈ s.issued ∧ h n p = .reply v :=
+  NetP.provenance _ (net_params_good h) s hr n d hd v hv
+
 end GorumsV.Tie.C05
 
 section Audit
 open GorumsV.Tie.C05 GorumsV.C05
 #print axioms delGuard_good
+#print axioms net_echo_good
+#print axioms net_ids_good
+#print axioms net_nid_good
+#print axioms net_params_good
+#print axioms tree_provenance
+#print axioms GorumsV.NetP.chan_reachable
+#print axioms GorumsV.NetP.srv_reachable
+#print axioms GorumsV.NetP.ids_unique
+#print axioms GorumsV.NetP.issue_unique
+#print axioms GorumsV.NetP.issue_has_call_id
+#print axioms GorumsV.NetP.provenance
+#print axioms GorumsV.NetP.one_reply_per_node
+#print axioms GorumsV.NetP.echo_needed
+#print axioms GorumsV.NetP.demo_deliveries
 #print axioms inv_init
 #print axioms inv_step
 #print axioms inv_reachable
